@@ -99,6 +99,7 @@ type AssertAt struct {
 	Callee string
 	Ord    int
 	C      Clause
+	Lemma  bool // "assert after f#k: lemma L(args)": an instance of the proved lemma L is made available here
 }
 
 // Guard: field Field of struct type Type may only be accessed while the mutex field Mutex of the same object is held.
@@ -441,11 +442,23 @@ func (lib *SpecLib) loadFile(path, prefix string) error {
 					ord, _ = strconv.Atoi(loc[j+1:])
 					loc = loc[:j]
 				}
+				isLemma := false
+				if strings.HasPrefix(ex, "lemma ") {
+					isLemma = true
+					ex = strings.TrimSpace(strings.TrimPrefix(ex, "lemma "))
+				}
 				c, err := clause(ex)
 				if err != nil {
 					return bad(err)
 				}
-				cur.Asserts = append(cur.Asserts, AssertAt{Callee: loc, Ord: ord, C: c})
+				if isLemma {
+					call, ok := c.E.(*ECall)
+					if !ok {
+						return bad(fmt.Errorf("assert after ...: lemma <name>(args)"))
+					}
+					cur.Uses = append(cur.Uses, call.Fun)
+				}
+				cur.Asserts = append(cur.Asserts, AssertAt{Callee: loc, Ord: ord, C: c, Lemma: isLemma})
 			case "mapinv":
 				i := strings.Index(rest, ": ")
 				if i < 0 {
